@@ -44,6 +44,9 @@ func SupportedSymmetricAlgorithms() []string {
 // EncryptSymmetric encrypts a message using a symmetric key and the specified algorithm.
 // Note that "associatedData" is ignored if the cipher does not support labels/AAD.
 func EncryptSymmetric(plaintext []byte, algorithm string, key jwk.Key, nonce []byte, associatedData []byte) (ciphertext []byte, tag []byte, err error) {
+	if key == nil {
+		return nil, nil, ErrKeyTypeMismatch
+	}
 	var keyBytes []byte
 	if key.KeyType() != jwa.OctetSeq || key.Raw(&keyBytes) != nil {
 		return nil, nil, ErrKeyTypeMismatch
@@ -76,6 +79,9 @@ func EncryptSymmetric(plaintext []byte, algorithm string, key jwk.Key, nonce []b
 // DecryptSymmetric decrypts an encrypted message using a symmetric key and the specified algorithm.
 // Note that "associatedData" is ignored if the cipher does not support labels/AAD.
 func DecryptSymmetric(ciphertext []byte, algorithm string, key jwk.Key, nonce []byte, tag []byte, associatedData []byte) (plaintext []byte, err error) {
+	if key == nil {
+		return nil, ErrKeyTypeMismatch
+	}
 	var keyBytes []byte
 	if key.KeyType() != jwa.OctetSeq || key.Raw(&keyBytes) != nil {
 		return nil, ErrKeyTypeMismatch
